@@ -36,7 +36,7 @@ fn strategy(t: Tier) -> BoxedStrategy<AccCase> {
                 1 => prop_oneof![Just(1usize << 32), Just((1usize << 32) + 1), Just(usize::MAX - 1), Just(usize::MAX), Just(usize::MAX / 2), Just(65535usize), Just(65536usize)],
                 1 => any::<usize>(),
             ];
-            (gen::cfg(kind, t.pick(300, 1200)), gen::engine_for(kind), 1u8..=20, gen::recv_spec(), prop::collection::vec(probe, 0..6), any::<u64>()).prop_map(
+            (gen::cfg(kind, t.pick(1000, 1500)), gen::engine_for(kind), 1u8..=20, gen::recv_spec(), prop::collection::vec(probe, 0..6), any::<u64>()).prop_map(
                 move |((cfg, _), eng, rounds, recv, probes, seed)| {
                     let rounds = if cfg.k + cfg.r > 200 { rounds.min(3) } else { rounds };
                     AccCase { kind, eng, cfg, rounds, recv, probes, seed }
